@@ -279,12 +279,18 @@ class ControllerLoop(object):
     self.select = self._advance(None)
 
   def close(self):
+    """End the generator the way POX itself would (KeyboardInterrupt is the one exception run() lets
+    through; a plain gen.close() is swallowed by its bare `except:`), then restore of_01."""
     of_01 = self.of_01
-    of_01.socket, of_01.Connection, of_01.log = self._saved
+    try:
+      self.gen.throw(KeyboardInterrupt())
+    except BaseException:
+      pass
     try:
       self.gen.close()
     except BaseException:
       pass
+    of_01.socket, of_01.Connection, of_01.log = self._saved
 
   def _advance(self, value):
     if not self.alive:
@@ -395,11 +401,11 @@ class SwitchLoop(object):
     self.select = self._advance(None)
 
   def close(self):
-    self.IOW.log = self._saved
     try:
       self.gen.close()
     except BaseException:
       pass
+    self.IOW.log = self._saved
 
   def _advance(self, value):
     if not self.alive:
